@@ -276,6 +276,7 @@ func NewCase(g *Gen, id int, forceValidate *bool) *Case {
 	}
 
 	var dest0 reflect.Value
+	var structData func() any
 	if validate {
 		dest0 = g.DestValue(n, t, false)
 		if g.P.NilBias {
@@ -300,6 +301,14 @@ func NewCase(g *Gen, id int, forceValidate *bool) *Case {
 			}
 		}
 		c.In = &in
+		if n.Kind == KStruct && in.Kind == "map" && ((n.Exported && g.R.P(80)) || g.R.P(3)) {
+			// the record handed over as a Go struct value (falsy fields are values, not absent)
+			if vis, mk, ok := StructInput(in); ok {
+				c.In = &vis
+				structData = mk
+				c.Shape += ":structinput"
+			}
+		}
 		if g.R.P(g.P.PPrefill) {
 			dest0 = g.DestValue(n, t, false)
 		} else {
@@ -308,7 +317,7 @@ func NewCase(g *Gen, id int, forceValidate *bool) *Case {
 	}
 	c.Dest0 = CoqDval(dest0, n)
 	c.dest0v = dest0
-	c.Wrapped = !validate && g.R.P(75)
+	c.Wrapped = !validate && g.R.P(75) && structData == nil
 
 	var structs []*Node
 	structNodes(n, &structs)
@@ -366,9 +375,12 @@ func NewCase(g *Gen, id int, forceValidate *bool) *Case {
 		var data any
 		log := &orderLog{visits: map[*Node][][]string{}}
 		if !validate {
-			if c.Wrapped {
+			switch {
+			case structData != nil:
+				data = structData()
+			case c.Wrapped:
 				data = c.In.Go(log)
-			} else {
+			default:
 				data = c.In.Go(nil)
 			}
 		}
